@@ -16,20 +16,20 @@ HIST = (" Call histories: each function of the family is also evaluated with one
 		"such call is compared with the same call alone in a fresh interpreter (core.history_check) - the answer is a function of the arguments of the call.")
 EXTRA = {
 	'C09': HIST + " Arguments outside the integration range and shifted/scaled SciPy families are compared with elementary values / quadrature.",
-	'C10': HIST + " The continuous newsvendor is compared with the defining expectation (independent quadrature) at S* and at other levels, one corpus case per shifted/scaled family.",
-	'C12': HIST + " myopic_bounds: scalar, length-T and length-(T+1) forms (stray 0th element) of one instance agree.",
+	'C10': HIST + " Lot demand (pmf dicts with gaps) and off-lattice levels for the disruption newsvendor are compared with the defining expectations. The continuous newsvendor is compared with the defining expectation (independent quadrature) at S* and at other levels, one corpus case per shifted/scaled family.",
+	'C12': HIST + " myopic_bounds: scalar, length-T and length-(T+1) forms (stray 0th element) of one instance agree. Corpus: cheap stockouts (cells near the lower end of the state space decide the policy), a uniform-continuous demand source (exact losses outside the support).",
 	'C13': HIST + " Large Poisson means (up to 800) against the custom-pmf entry point and the stationary cost.",
 	'C14': HIST + " EIL approximation: reported cost = equation (5.16) of the returned pair; low-mean corpus for the exact algorithm.",
-	'C11': " Call histories: one instance solved again with exactly one argument changed, every call compared with the model.",
-	'C04': " Echelon base-stock nodes are also exercised in distribution systems (several downstream-most nodes).",
+	'C11': " Call histories: one instance solved again with exactly one argument changed, every call compared with the model; every call's arguments are compared with copies (no argument is rewritten in place); integer NumPy arrays of narrow dtypes (int16/int32/uint8) whose cost sums leave the dtype's range.",
+	'C04': " Echelon base-stock nodes are also exercised in distribution systems (several downstream-most nodes); multi-product nodes with order capacities given per product (the predicate uses the documented capacity of the (node, product) pair).",
 	'C06': " Props/NetSeq.lean: orderSeq_nodup, shipSeq_nodup (no node is processed twice in a phase - for every network, unconditionally) and visitOK_iff. The order-follows-policy predicate, the cost re-pricing predicate, the release of withheld units after a shipment pause and order-pipeline conservation are part of the predicates evaluated on every real trajectory.",
 	'C03': " On every edge into a TP/RP node the edge-flow identity (nothing lost while a pause delays a shipment) is evaluated.",
 	'C08': " External inbound times at inner stages; a pre-processed tree edited before solving equals the edited instance built afresh.",
-	'C15': " One-object workflow: analysis with network=, conversion, installation by index (and Policy objects moved from a simulated pilot system), simulation - identical to the same levels on a fresh copy.",
-	'C16': " Distributions handed out earlier are re-queried after later requests.",
-	'C17': " Simulated networks are saved through every exit of save_instance (incl. the documented no-ops) and their state variables compared.",
-	'C18': " Serial systems stored in four construction orders for the level conversions.",
-	'C01': " An order-override stream (orders forced through step(order_quantity_override=...), above and below the policy quantity) evaluates every balance on the real trajectory; multi-product networks also check order-pipeline conservation per raw material.",
+	'C15': " The workflow also runs the stockout penalty as a cost function, and with consistency_checks 'N' and 'E' (diagnostic options leave the trajectory alone). One-object workflow: analysis with network=, conversion, installation by index (and Policy objects moved from a simulated pilot system), simulation - identical to the same levels on a fresh copy.",
+	'C16': " Distributions handed out earlier are re-queried after later requests; the reported cdf is compared with the distribution object's at, between and outside support points; Markov probabilities 0 and 1.",
+	'C17': " Simulated networks are saved through every exit of save_instance (incl. the documented no-ops) and their state variables compared; CSV output of multi-product networks (one cell per label, every labelled cell = its state variable).",
+	'C18': " Serial systems stored in four construction orders for the level conversions; identity and permutation re-index maps; builders with list- and dict-valued demand sources and per-node demand attributes (two genuine defects of owmr_system/mwor_system repaired, known_findings.json).",
+	'C01': " The same network objects are simulated a second time (as run_multiple_trials does) and the second trajectory is checked like the first. An order-override stream (orders forced through step(order_quantity_override=...), above and below the policy quantity) evaluates every balance on the real trajectory; multi-product networks also check order-pipeline conservation per raw material.",
 	'C02': " Multi-product networks: per-product cumulative demand, demand met from stock and fill rate.",
 	'C05': " run_multiple_trials is also run with 30 trials on instances where a per-trial seed repeats.",
 	'C20': " Non-scalar defaults of the node normalisers; random nested dicts for the key rewriters (reference implementations, no sharing with the argument).",
